@@ -134,6 +134,7 @@ func (v *VServer) loopState() string {
 				id, st := findGoroutine(v.buf[:n], "pfcp.(*PfcpServer).main(")
 				if st == "select" {
 					v.gid = id
+					vKnownLoops.Store(id, true)
 				}
 				return st
 			}
@@ -161,12 +162,20 @@ func header(g []byte) (id, st string) {
 	return id, st
 }
 
+// vKnownLoops: goroutine ids of the loop goroutines of earlier servers of this process. A loop that a finding left
+// blocked for good (e.g. in a channel send) outlives its server; the next server's loop must not be mistaken for it.
+var vKnownLoops sync.Map
+
 func findGoroutine(dump []byte, fn string) (id, st string) {
 	for _, g := range bytes.Split(dump, []byte("\n\n")) {
 		if !bytes.Contains(g, []byte(fn)) {
 			continue
 		}
-		return header(g)
+		id, st = header(g)
+		if _, old := vKnownLoops.Load(id); old {
+			continue
+		}
+		return id, st
 	}
 	return "", "gone"
 }
